@@ -3,6 +3,137 @@
 EXTENDS BlockBlob
 KindsOne == {"l1handler"}
 KindsTwo == {"invoke3", "l1handler"}
+KindsTypes == {"invoke3", "declare3", "deployaccount3", "l1handler", "deploy"}      \* one kind per Go transaction type
 KindsAll == {"invoke0", "invoke1", "invoke3", "declare1", "declare2", "declare3",
              "deployaccount1", "deployaccount3", "l1handler", "deploy"}
+
+(* ---------------------------------------------------------------------------------------------
+   THE PER-FIELD NORMAL FORMS (FieldTable <- MCFieldTable).
+
+   One row per slice / map / byte-string / pointer field of every stored Go type, named by its Go
+   path (root type, then the field path: ".F" a struct field - embedded structs are transparent -,
+   "[]" an element of a slice, "{}" a value of a map; pointers are transparent). `kind` is the Go
+   kind, `codec` the code that writes and reads the field, `norm` the contract:
+
+     exact      the stored shape comes back (nil stays nil, empty stays empty, a nil pointer stays nil,
+                a pointer to the zero value stays a pointer to the zero value)
+     empty=nil  nil and empty are ONE value, normal form nil
+     nil=empty  nil and empty are ONE value, normal form empty
+     key        an identity field (the record's own hash, used as a database key): never absent
+
+   How each codec family was derived from the code (confirmed afterwards on the unchanged tree by the
+   engine, which enumerates the fields by reflection and reports rows it does not find / fields the
+   table does not list):
+
+   "cbor"  encoder/encoder.go: fxamacker/cbor v2 with cbor.CanonicalEncOptions() (NilContainers is the
+           default NilContainerAsNull) and struct fields WITHOUT tag options (core/block.go,
+           transaction.go, receipt.go, state_update.go, class.go carry at most a rename,
+           `cbor:"gasprice"`, never toarray / omitempty - except the one below). Encoder: a nil slice /
+           map / byte string / pointer is written as null (f6) (encode.go: the IsNil() branches of
+           encodeByteString / encodeArray / encodeMap, nil pointers before any MarshalCBOR is consulted
+           - so also for *felt.Felt and *TransactionVersion with their own MarshalCBOR), an empty one
+           as 80 / a0 / 40. Decoder: null leaves the zero value of the fresh destination (nil); 80
+           makes reflect.MakeSlice(t, 0, 0) (decode.go parseArrayToSlice: `v.IsNil() || ... ||
+           count == 0`), a0 reflect.MakeMapWithSize (parseMapToMap: `if v.IsNil()`), 40 make([]byte, 0)
+           (fillByteString); a pointer to the zero value is written as the zero value and comes back
+           as a new pointer. => exact.
+   "cbor-omitempty"  core/transaction.go:302 `ProofFacts []felt.Felt `cbor:",omitempty"``: nil AND
+           empty are both omitted, the decoder leaves the fresh destination nil. => empty=nil. Nothing
+           can tell them apart after a round trip and nothing needs to: invokeTransactionHash uses
+           len(ProofFacts) > 0, vm/transaction.go and rpc/v10 adapt_transaction.go test `!= nil` to
+           decide presence, and rpc/v10 transaction.go:42 turns nil into [] when proof facts are asked
+           for - an internal normal form with no RPC-visible consequence.
+   "feltslice"  core/felt/slice.go, the hand-written codec of felt.Slice (SierraClass.Program,
+           CasmClass.Bytecode): MarshalCBOR writes f6 for nil and an array header otherwise (80 for
+           empty); UnmarshalCBOR makes `make([]F, size)` for an array header (non-nil for size 0) and
+           falls back to the generic decoder for f6 (nil). => exact.
+   "blob"  core/block_transaction.go + core/indexed: the block-level lists themselves are never
+           encoded - only their elements and offsets (BlockTransactionsIndexes has
+           `keyasint,omitempty`, indexed.Write starts from make([]int, 0)), and LazySlice.All returns
+           make([]T, len(indexes)). => nil=empty (an empty block's Transactions / Receipts come back
+           as empty non-nil lists whatever was handed to Store). Callers: sn2core / p2p2core always
+           build the lists with make(); every RPC adapter builds its own array from them.
+   "key"   WriteTransactionsAndReceipts keys the hash index by tx.Hash() and
+           extractAllTransactionHashes rejects a zero hash ("missing TransactionHash");
+           WriteBlockHeader keys the number index by header.Hash.
+   "binary"  core/class.go ClassCasmHashMetadata.MarshalBinary / UnmarshalBinary: presence flags -
+           casmHashV1 nil <-> flag 0 (a pointer to a zero hash is written with flag 1 and 32 zero bytes),
+           migratedAt 0 <-> flag 0. => exact. (Private fields: the engine drives the constructors and
+           looks at the pointer by reflection; IsDeclaredWithV2() is `casmHashV1 == nil`.)
+
+   `proj` = "events": the field is also decoded by the events projection (core/partial_cbor.go
+   receiptEventsProjection), a separate struct with its own decoder.
+   --------------------------------------------------------------------------------------------- *)
+Rows(root, kind, codec, norm, proj, fields) ==
+  {[root |-> root, field |-> f, kind |-> kind, codec |-> codec, norm |-> norm, proj |-> proj] : f \in fields}
+Exact(root, kind, fields) == Rows(root, kind, "cbor", "exact", "", fields)
+ResourceBoundsRows(root) == Exact(root, "map", {".ResourceBounds"}) \cup Exact(root, "ptr", {".ResourceBounds{}.MaxPricePerUnit"})
+
+MCFieldTable ==
+  (* core.Block: the lists a block is stored / returned with *)
+  Rows("*core.Block", "slice", "blob", "nil=empty", "", {".Transactions", ".Receipts"})
+  (* core.Header (core/block.go) *)
+  \cup Rows("*core.Header", "ptr", "cbor", "key", "", {".Hash"})
+  \cup Exact("*core.Header", "ptr", {".ParentHash", ".GlobalStateRoot", ".SequencerAddress", ".EventsBloom", ".L1GasPriceETH",
+                                     ".L1GasPriceSTRK", ".L1DataGasPrice", ".L1DataGasPrice.PriceInWei", ".L1DataGasPrice.PriceInFri",
+                                     ".L2GasPrice", ".L2GasPrice.PriceInWei", ".L2GasPrice.PriceInFri", ".Signatures[][]"})
+  \cup Exact("*core.Header", "slice", {".Signatures", ".Signatures[]"})
+  (* core.BlockCommitments *)
+  \cup Exact("*core.BlockCommitments", "ptr", {".TransactionCommitment", ".EventCommitment", ".ReceiptCommitment", ".StateDiffCommitment"})
+  (* core.ClassCasmHashMetadata (core/class.go, binary codec) *)
+  \cup Rows("core.ClassCasmHashMetadata", "ptr", "binary", "exact", "", {".casmHashV1"})
+  (* core.L1Head *)
+  \cup Exact("*core.L1Head", "ptr", {".BlockHash", ".StateRoot"})
+  (* the five transaction types (core/transaction.go) *)
+  \cup Rows("*core.InvokeTransaction", "ptr", "cbor", "key", "", {".TransactionHash"})
+  \cup Exact("*core.InvokeTransaction", "ptr", {".MaxFee", ".ContractAddress", ".Version", ".EntryPointSelector", ".Nonce", ".SenderAddress"})
+  \cup Exact("*core.InvokeTransaction", "slice", {".CallData", ".TransactionSignature", ".PaymasterData", ".AccountDeploymentData"})
+  \cup Rows("*core.InvokeTransaction", "slice", "cbor-omitempty", "empty=nil", "", {".ProofFacts"})
+  \cup ResourceBoundsRows("*core.InvokeTransaction")
+  \cup Rows("*core.DeclareTransaction", "ptr", "cbor", "key", "", {".TransactionHash"})
+  \cup Exact("*core.DeclareTransaction", "ptr", {".ClassHash", ".SenderAddress", ".MaxFee", ".Nonce", ".Version", ".CompiledClassHash"})
+  \cup Exact("*core.DeclareTransaction", "slice", {".TransactionSignature", ".PaymasterData", ".AccountDeploymentData"})
+  \cup ResourceBoundsRows("*core.DeclareTransaction")
+  \cup Rows("*core.DeployAccountTransaction", "ptr", "cbor", "key", "", {".TransactionHash"})
+  \cup Exact("*core.DeployAccountTransaction", "ptr", {".ContractAddressSalt", ".ContractAddress", ".ClassHash", ".Version", ".MaxFee", ".Nonce"})
+  \cup Exact("*core.DeployAccountTransaction", "slice", {".ConstructorCallData", ".TransactionSignature", ".PaymasterData"})
+  \cup ResourceBoundsRows("*core.DeployAccountTransaction")
+  \cup Rows("*core.DeployTransaction", "ptr", "cbor", "key", "", {".TransactionHash"})
+  \cup Exact("*core.DeployTransaction", "ptr", {".ContractAddressSalt", ".ContractAddress", ".ClassHash", ".Version"})
+  \cup Exact("*core.DeployTransaction", "slice", {".ConstructorCallData"})
+  \cup Rows("*core.L1HandlerTransaction", "ptr", "cbor", "key", "", {".TransactionHash"})
+  \cup Exact("*core.L1HandlerTransaction", "ptr", {".ContractAddress", ".EntryPointSelector", ".Nonce", ".Version"})
+  \cup Exact("*core.L1HandlerTransaction", "slice", {".CallData"})
+  (* core.TransactionReceipt (core/receipt.go, core/transaction.go) *)
+  \cup Rows("*core.TransactionReceipt", "ptr", "cbor", "exact", "events", {".TransactionHash", ".Events[]", ".Events[].From"})
+  \cup Rows("*core.TransactionReceipt", "slice", "cbor", "exact", "events", {".Events", ".Events[].Keys", ".Events[].Data"})
+  \cup Exact("*core.TransactionReceipt", "ptr", {".Fee", ".ExecutionResources", ".ExecutionResources.DataAvailability",
+                                                 ".ExecutionResources.TotalGasConsumed", ".L1ToL2Message", ".L1ToL2Message.Nonce",
+                                                 ".L1ToL2Message.Selector", ".L1ToL2Message.To", ".L2ToL1Message[]", ".L2ToL1Message[].From"})
+  \cup Exact("*core.TransactionReceipt", "slice", {".L1ToL2Message.Payload", ".L2ToL1Message", ".L2ToL1Message[].Payload"})
+  (* core.StateUpdate / core.StateDiff (core/state_update.go) *)
+  \cup Exact("*core.StateUpdate", "ptr", {".BlockHash", ".NewRoot", ".OldRoot", ".StateDiff", ".StateDiff.StorageDiffs{}{}",
+                                          ".StateDiff.Nonces{}", ".StateDiff.DeployedContracts{}", ".StateDiff.DeclaredV0Classes[]",
+                                          ".StateDiff.DeclaredV1Classes{}", ".StateDiff.ReplacedClasses{}"})
+  \cup Exact("*core.StateUpdate", "map", {".StateDiff.StorageDiffs", ".StateDiff.StorageDiffs{}", ".StateDiff.Nonces",
+                                          ".StateDiff.DeployedContracts", ".StateDiff.DeclaredV1Classes", ".StateDiff.ReplacedClasses",
+                                          ".StateDiff.MigratedClasses"})
+  \cup Exact("*core.StateUpdate", "slice", {".StateDiff.DeclaredV0Classes"})
+  (* core.SierraClass with its compiled class (core/class.go) *)
+  \cup Exact("*core.SierraClass", "ptr", {".AbiHash", ".ProgramHash", ".Compiled", ".Compiled.Prime",
+                                          ".EntryPoints.Constructor[].Selector", ".EntryPoints.External[].Selector", ".EntryPoints.L1Handler[].Selector",
+                                          ".Compiled.Constructor[].Selector", ".Compiled.External[].Selector", ".Compiled.L1Handler[].Selector"})
+  \cup Rows("*core.SierraClass", "slice", "feltslice", "exact", "", {".Program", ".Compiled.Bytecode"})
+  \cup Exact("*core.SierraClass", "slice", {".EntryPoints.Constructor", ".EntryPoints.External", ".EntryPoints.L1Handler",
+                                            ".Compiled.Constructor", ".Compiled.External", ".Compiled.L1Handler",
+                                            ".Compiled.Constructor[].Builtins", ".Compiled.External[].Builtins", ".Compiled.L1Handler[].Builtins",
+                                            ".Compiled.BytecodeSegmentLengths.Children", ".Compiled.BytecodeSegmentLengths.Children[].Children"})
+  \cup Exact("*core.SierraClass", "bytes", {".Compiled.PythonicHints", ".Compiled.Hints"})
+  (* core.DeprecatedCairoClass *)
+  \cup Exact("*core.DeprecatedCairoClass", "bytes", {".Abi"})
+  \cup Exact("*core.DeprecatedCairoClass", "slice", {".Externals", ".L1Handlers", ".Constructors"})
+  \cup Exact("*core.DeprecatedCairoClass", "ptr", {".Externals[].Selector", ".Externals[].Offset", ".L1Handlers[].Selector", ".L1Handlers[].Offset",
+                                                   ".Constructors[].Selector", ".Constructors[].Offset"})
+
+AllCodecs == {"cbor", "cbor-omitempty", "feltslice", "blob", "binary"}
 =============================================================================
